@@ -14,3 +14,4 @@ open Comrak.C06
 #print axioms xml_indent_cap
 #print axioms label_bounded
 #print axioms paren_depth_bounded
+#print axioms btStepsPos_differs_counterexample
